@@ -1,2 +1,8 @@
 from contracts.weakrefs import InsertOnce, GetCleanRef, RemoveNoneReferents
 CONTRACTS = [InsertOnce, GetCleanRef, RemoveNoneReferents]
+
+MANIFEST = {
+    "category": "proof",
+    "text": "Every obligation generated from the registry primitives (insert_once, get_clean_ref, remove_none_referents: whole-map postconditions, frames, exceptional posts, one loop invariant) is discharged by z3 for all registries, keys and liveness patterns; exhaustive small-scope native runs cross-check the same contracts on the real functions.",
+    "note": "T-weak (a weak reference is alive or dead, fixed per call), T-py dict/list semantics and the pos/rank selection axioms are assumed and audited; Workspace.register / copy paths are not yet under contract (listed in evidence).",
+}
